@@ -3,7 +3,60 @@
 import json, os
 ROOT = os.path.dirname(os.path.dirname(os.path.abspath(__file__)))
 
+SIMNOTE = ("Trusts Migen's elaboration and migen.sim semantics (every violation is re-run on the stock simulator before it is reported; the compiled simulator "
+           "lib/fastsim.py is differentially self-tested at the start of each run), Hypothesis, and the reference models named in DESIGN.md section 5.")
+PBT = "property-based testing (Hypothesis generated configurations and traffic, 16 seeded shards) against "
+
 CHECKS = {
+ "C01": dict(category="exploration", design_ref="DESIGN.md section 3, C01",
+    text="Whole core (controller + crossbar, 1-8 ports) against an independent reference DRAM at the DFI boundary: generated configurations (memory type/rate, latencies, phases, geometry, "
+         "timings, buffer depth/buffered, auto-precharge, refresh, ranks, bank alignment) x generated multi-port traffic on colliding locations; every read beat and the final DRAM contents are "
+         "compared with a byte reference memory updated in command-acceptance order. Bounded exploration of an unbounded schedule space is what this family can give; sizes are thousands of cases per run.",
+    note=SIMNOTE + " Reference DRAM models the DFI boundary as PhySettings defines it; conforming master as in the property statement; rowbits >= 11 and > colbits when colbits > 10.",
+    technique=PBT + "a reference memory / independent DRAM model (model-based oracle)"),
+ "C02": dict(category="exploration", design_ref="DESIGN.md section 3, C02",
+    text="Same whole-core campaign biased to two ranks, auto-precharge, refresh every 100-200 cycles and ZQCS; a JEDEC state-legality monitor decodes every DFI phase of every cycle (ACT only on precharged "
+         "banks, RD/WR only on the open row, REF/ZQ only with all banks closed, data-enable strobes on the PHY phases, chip selects) and every RD/WR must be the oldest outstanding request of its bank under the independent address map.",
+    note=SIMNOTE + " JEDEC truth table as transcribed in lib/refdram.py; lib/addrmap.py written from the mapping's documentation.",
+    technique=PBT + "a DRAM bank-state monitor and an independent address map (invariant over the command history)"),
+ "C03": dict(category="exploration", design_ref="DESIGN.md section 3, C03",
+    text="Whole core configured from library module classes (and generated classes in the library's entry style) at generated clocks; a timing monitor measures every command pair on the DFI bus in DRAM clocks "
+         "(phase positions included) against requirements computed with exact rational arithmetic from the (ck, ns) datasheet entries: tRCD, tRP, tRAS, tRC, tRRD, tFAW, tCCD, write recovery, write-to-read, tRFC, tZQCS, "
+         "for explicit, automatic and refresh precharges.",
+    note=SIMNOTE + " (ck, ns) tables of modules.py are the datasheet; tRTP is not in the property and not checked; RPC/LPDDR4 excluded from the dynamic campaign (C16 covers their conversion).",
+    technique=PBT + "exact-rational datasheet requirements evaluated by a timing monitor over the DFI command history"),
+ "C04": dict(category="exploration", design_ref="DESIGN.md section 3, C04",
+    text="Whole core with refresh on under traffic from idle to saturating looped streams for >= 3.5 refresh sequences: k-th refresh no later than (k + postponing) datasheet intervals + a configuration-only latency L, "
+         "sequences never earlier than / later than L after their free-running request instants, exact idle periodicity with period <= postponing x datasheet tREFI, precharge-all before each refresh, traffic resumes, ZQCS recurrence. "
+         "Unbounded time is decided in bounded form (a drift or starvation accumulates and crosses the bound).",
+    note=SIMNOTE + " L is a stated function of the configuration; runs are bounded (thousands of cycles).",
+    technique=PBT + "a refresh-schedule monitor with exact-rational datasheet interval (invariant over the history)"),
+ "C05": dict(category="exploration", design_ref="DESIGN.md section 3, C05",
+    text="Whole core with a victim port and adversary ports generated from adversarial strategies looped for longer than the bound: every offered command must be accepted and every accepted command must get its data "
+         "phase within B(configuration). Liveness is decided in bounded form. Two genuine defects are listed as known findings with exact signatures (arbiter grant / bank lock trace; chooser never selecting a continuously valid request) "
+         "so that the search continues behind them.",
+    note=SIMNOTE + " B is a stated function of the configuration only; read_time/write_time = 0 (anti-starvation disabled) are outside the domain.",
+    technique=PBT + "a bounded-response monitor with a configuration-only bound; known findings matched by internal-signal signatures"),
+ "C06": dict(category="exploration", design_ref="DESIGN.md section 3, C06",
+    text="Static: for generated geometries every port address (exhaustive when the space is <= 2^17, else 20 000 structured addresses) is routed through the real crossbar's combinational logic and the real address slicer: "
+         "injective, onto, equal to an independent documentation-derived map, A10 never a column bit, burst aligned. Dynamic: single commands through the whole core, ACT/RD/WR bank/row/column on DFI against the same map.",
+    note=SIMNOTE + " bank_byte_alignment between one data word and one rank's row-column space.",
+    technique="exhaustive enumeration per small geometry + " + PBT + "an independent address map (differential oracle)"),
+ "C07": dict(category="exploration", design_ref="DESIGN.md section 3, C07",
+    text="Up (1:2..1:32) and down (2:1..8:1) converters, all modes, reverse on/off, between a conforming user-side master (ascending/descending/repeated/random addresses inside a wide word, cmd.last, flush at end) and a realistic "
+         "controller-side slave (one-cycle strobes regardless of valid/ready); byte reference memory in user command order, beat counts, final memory, no lost strobe, no invented command.",
+    note=SIMNOTE + " The realistic slave only shows behaviour the real crossbar can show; a master that waits for read data marks that read with cmd.last as documented.",
+    technique=PBT + "a byte-accurate reference memory (model-based oracle)"),
+ "C08": dict(category="exploration", design_ref="DESIGN.md section 3, C08",
+    text="LiteDRAMNativePortCDC under generated clock period pairs (equal, integer ratios, co-prime drifting) and phases, FIFO depths, back-pressure: stream equality of commands, write words and read words across the crossing plus "
+         "the memory oracle. Two genuine defects (read-data FIFO overrun; write data lagging commands with shallow non-default FIFOs) are known findings with event-count signatures.",
+    note=SIMNOTE + " Migen TimeManager clock semantics; even periods.",
+    technique=PBT + "stream equality across the crossing and a reference memory, multi-clock simulation with generated clock pairs"),
+ "C10": dict(category="exploration", design_ref="DESIGN.md section 3, C10",
+    text="LiteDRAMWishbone2Native for bus:port ratios 1/8..8 and base addresses and LiteDRAMNative2Wishbone (word/byte addressing): classic cycles, incrementing bursts, any sel, back-to-back, aborts at generated cycles; "
+         "one acknowledge per non-aborted access, none outside a cycle, byte reference memory with allowed sets (bytes selected by an aborted write are undefined, everything else untouched), no hang after aborts, final memory.",
+    note=SIMNOTE + " At a write strobe that finds no valid data the stub applies the data/enable wires like the real crossbar does.",
+    technique=PBT + "a byte-accurate reference memory with per-byte allowed sets (model-based oracle)"),
  "C16": dict(
     category="exploration",
     text="Dense deterministic grid (every module class x speedgrade x rate x fine-refresh mode x controller clock) plus Hypothesis-drawn "
@@ -13,6 +66,11 @@ CHECKS = {
     design_ref="DESIGN.md section 3, C16",
     note="Trusts the (ck, ns) tables of litedram/modules.py as the datasheet, Fraction arithmetic, and lib/spd.py's transcription of the JEDEC SPD byte map.",
     technique="property-based testing: grid + Hypothesis generated clocks against an exact-rational reference (differential oracle)"),
+ "C18": dict(category="exploration", design_ref="DESIGN.md section 3, C18",
+    text="DFIInjector (phases 1-8, ranks 1-2, clam shell) with new random values on every field every cycle and mode switches at generated cycles: hardware mode = same-cycle transparency both ways, software mode = metamorphic "
+         "(controller-side values cannot influence the PHY side). DFIRateConverter (ratio 2/4, PHY phases 1-4, all write/read delays) against a reference written from the class docstring: every command exactly once in phase order at the documented latency, write/read bursts in the selected fast cycle.",
+    note=SIMNOTE + " CSRs are attached like a LiteX CSR bank does; aligned clock pair as the repository's tests prescribe; in clam-shell/external mode only the documented half of cs/cke/odt is compared.",
+    technique=PBT + "a reference converter model and a metamorphic relation (two runs differing only in controller-side values)"),
 }
 
 NOT_YET = {}
